@@ -118,7 +118,7 @@ func c14Pop(r *rand.Rand) gen.PopOpts {
 func init() {
 	core.Register(&core.Prop{
 		ID: "C14", Level: "exploration",
-		Rule: "each case draws an ordered pair of nodes of one of seven kinds (independent random nodes; single-attribute mutant at a reflection-enumerated site; equal copy with permuted set-valued attributes; empty-versus-absent collections; duplicated list elements; sub-second date change; map entries / list elements whose value is the empty string) " +
+		Rule: "each case draws an ordered pair of nodes of one of eight kinds (different nodes that flatten to the same unseparated text; independent random nodes; single-attribute mutant at a reflection-enumerated site; equal copy with permuted set-valued attributes; empty-versus-absent collections; duplicated list elements; sub-second date change; map entries / list elements whose value is the empty string) " +
 			"and checks Diff(a,b) and Diff(b,a) against a reference comparator over ALL schema attributes found by reflection: nil iff no attribute differs (lists as sets, dates to the second), DiffCount == number of differing attributes, " +
 			"and apply(a, diff) reproduces b on every attribute. Every fourth case diffs the same two values again after one of them was changed in place. distinct = hash of the pair; non-trivial = at least one attribute differs.",
 		Assumptions: []string{"separator-free text (nested persons and external references are identified by their flattened strings: known finding C13 flatstring-separator-collision)", "no nil elements inside repeated message fields"},
@@ -137,14 +137,14 @@ func c14Case(c *core.C) {
 	o := c14Pop(r)
 	a := gen.Node(r, "id-a", o)
 	var b *sbom.Node
-	kind := []string{"independent", "single-mutant", "permuted-copy", "empty-vs-absent", "duplicates", "subsecond", "empty-valued-entries"}[c.K%7]
+	kind := []string{"independent", "single-mutant", "permuted-copy", "empty-vs-absent", "duplicates", "subsecond", "empty-valued-entries", "flatten-alike"}[c.K%8]
 	var mutPath string
 	switch kind {
 	case "independent":
 		b = gen.Node(r, gen.Pick(r, []string{"id-a", "id-b"}), c14Pop(r))
 	case "single-mutant":
 		b = gen.Clone(a)
-		mu := c13NodeMuts[(c.K/7)%len(c13NodeMuts)]
+		mu := c13NodeMuts[(c.K/8)%len(c13NodeMuts)]
 		if !gen.Apply(r, b.ProtoReflect(), mu, 0, o) {
 			// site absent in this instance: populate fully and retry
 			oo := o
@@ -187,6 +187,30 @@ func c14Case(c *core.C) {
 		}
 		if len(b.FileTypes) > 0 {
 			b.FileTypes = append(b.FileTypes, b.FileTypes[0])
+		}
+	case "flatten-alike":
+		// different nodes that a text rendering with unescaped, unseparated entries cannot tell apart (the known
+		// finding of C13 concerns Equal; Diff compares attribute by attribute and must see the difference)
+		b = gen.Clone(a)
+		k1 := int32(1 + r.Intn(9))
+		k2 := int32(1 + r.Intn(9))
+		v1, v2 := gen.TextPlain(r, 3)+"x", gen.TextPlain(r, 3)+"y"
+		switch r.Intn(3) {
+		case 0:
+			a.Hashes = map[int32]string{k1: v1, k1*10 + k2: v2}
+			b.Hashes = map[int32]string{k1: v1 + fmt.Sprint(k1), k2: v2}
+			if k1 == k2 {
+				b.Hashes = map[int32]string{k1: v2} // degenerate draw: still a different map
+			}
+		case 1:
+			a.Identifiers = map[int32]string{k1: v1, k1*10 + k2: v2}
+			b.Identifiers = map[int32]string{k1: v1 + fmt.Sprint(k1), k2: v2}
+			if k1 == k2 {
+				b.Identifiers = map[int32]string{k1: v2}
+			}
+		default:
+			a.Name, a.Version = "x:protobom.protobom.Node.version:1", ""
+			b.Name, b.Version = "x", "1"
 		}
 	case "empty-valued-entries":
 		// a map entry or list element whose value is the empty string is still an entry
